@@ -4,6 +4,7 @@ import warnings
 import numpy as np
 
 from . import env  # noqa: F401
+from .represent import Rep
 from . import grammar as G
 from . import reference as R
 from . import refsolver, scripted
@@ -158,7 +159,9 @@ def key_class(case, script, opts):
 
 def _check_scripted_solve(case, res, m, endo, check, init, n, opts, ref, b, a, script):
     """solve() over the whole span against the fold of the reference machine (stops at the first exception)."""
-    got = attempt(m.solve, **opts)
+    rep = Rep(case.get('rep'))
+    got = attempt(m.solve, **rep.opts(opts))
+    rep.tag(res)
     flags, want = [], None
     for T in range(n):
         want = refsolver.solve_t(ref, T, n, check=check, endogenous=endo,
@@ -194,11 +197,13 @@ def check_scripted(case):
     b, a = scripted.ref_hooks(case.get('hooks'))
     if case.get('entry') == 'solve':
         return _check_scripted_solve(case, res, m, endo, check, init, n, opts, ref, b, a, script)
+    rep = Rep(case.get('rep'))
     if case.get('entry') == 'solve_period':
         label = spans.labels(desc)[T]
-        got = attempt(m.solve_period, label, **opts)
+        got = attempt(m.solve_period, label, **rep.opts(opts))
     else:
-        got = attempt(m.solve_t, t, **opts)
+        got = attempt(m.solve_t, rep.int(t), **rep.opts(opts))
+    rep.tag(res)
 
     want = refsolver.solve_t(ref, t, n, check=check, endogenous=endo,
                              evaluate=scripted.ref_evaluate_cb(script), before=b, after=a, **opts)
